@@ -303,6 +303,12 @@ impl<'a, SE: brush_core::ShellExtensions> Highlighter<'a, SE> {
             self.input_line,
         );
 
+        // Tokens do not always arrive in source order: a here-document body is handed over
+        // before the operators that follow its introducing line. Never step backwards, or the
+        // spans would overlap; whatever lies before the current position is already covered.
+        let range = range.start.max(self.current_byte_index)
+            ..range.end.max(self.current_byte_index);
+
         // See if we need to cover a gap between this substring and the one that preceded it.
         if range.start > self.current_byte_index {
             let missing_kind = self.next_missing_kind.unwrap_or(HighlightKind::Comment);
